@@ -84,7 +84,10 @@ fn check_equality_bigdecimal_ref(lhs: BigDecimalRef, rhs: BigDecimalRef) -> bool
             match (a_digits.next(), b_digits.next()) {
                 (Some(next_a), Some(next_b)) => {
                     let wide_b = match (next_b as u64).checked_mul(pow) {
-                        Some(tmp) => tmp + carry,
+                        Some(tmp) => match tmp.checked_add(carry) {
+                            Some(wide_b) => wide_b,
+                            None => break,
+                        },
                         None => break,
                     };
 
